@@ -117,6 +117,9 @@ func CheckWire(tap *Tap, wire, c2s string, alive bool, w *World) {
 			switch {
 			case r.Reset_ != nil:
 				s.cResets++
+				if s.cOpen == 0 {
+					fail("client-reset-before-open", "id %d: a reset is the first thing the client sends on this id (the stream was never opened)", s.id)
+				}
 			case s.unary:
 				s.cReqs++
 				if r.Body == nil || r.Trailer != nil {
